@@ -54,6 +54,24 @@ def regex_case(draw, no_diamond=False):
             cand = [k for k, it in enumerate(items) if it[0] == "I" and k > 0]
         prog["items"] = items
         prog["features"] = sorted(set(prog.get("features", [])) | {"replace_forms"})
+    run_pat = None
+    if draw(st.integers(0, 4)) == 0:
+        # a run of repeated instructions (AAAA BBBB or ABABAB, stack neutral): occurrences of a self-overlapping
+        # pattern share instructions there
+        prog = dict(prog)
+        items = list(prog["items"])
+        cand = [k for k, it in enumerate(items) if it[0] == "I" and k > 0]
+        if cand:
+            k = draw(st.sampled_from(cand))
+            r = draw(st.integers(3, 5))
+            if draw(st.booleans()):
+                items[k:k] = [["I", "int", ["1"]] for _ in range(r)] + [["I", "pop", []] for _ in range(r)]
+                run_pat = [draw(st.sampled_from(["int 1", "pop"]))] * draw(st.integers(2, 3))
+            else:
+                items[k:k] = [x for _ in range(r) for x in (["I", "int", ["1"]], ["I", "pop", []])]
+                run_pat = draw(st.sampled_from([["int 1", "pop", "int 1"], ["pop", "int 1", "pop"], ["int 1", "pop", "int 1", "pop"]]))
+            prog["items"] = items
+            prog["features"] = sorted(set(prog.get("features", [])) | {"repeated_run"})
     g = RCFG(prog)
     labels = [nd.imm[0] for nd in g.seq if nd.op == "label" and nd.idx in g.retained]
     label = draw(st.sampled_from(labels + ["*"] * max(2, len(labels))))
@@ -84,6 +102,8 @@ def regex_case(draw, no_diamond=False):
             if t[0] in ("int", "pushint") and len(t) == 2 and t[1].isdigit():
                 window[k] = f"{t[0]} {int(t[1]) + 1}"
                 break
+    if run_pat is not None and draw(st.integers(0, 3)):
+        window = run_pat
     return {"program": prog, "label": label, "pattern": window}
 
 
